@@ -3341,6 +3341,19 @@ class NameCheckVisitor(node_visitor.ReplacingNodeVisitor):
         if typ is tuple and self.in_annotation:
             elts = []
             for elt in node.elts:
+                if isinstance(elt, ast.Starred):
+                    # PEP 646: tuple[int, *tuple[str, ...]]; unpack the alias as the runtime does
+                    starred = self.visit(elt.value)
+                    if isinstance(starred, KnownValue):
+                        try:
+                            unpacked = list(starred.val)
+                        except Exception:
+                            pass
+                        else:
+                            elts += [KnownValue(item) for item in unpacked]
+                            continue
+                    elts.append(_StarredValue(starred, elt.value))
+                    continue
                 val = self.visit(elt)
                 self.check_for_missing_generic_params(elt, val)
                 elts.append(val)
